@@ -177,7 +177,48 @@ def r9_6(F, R):
                    lambda fn: fn.crate in ("texlang.lib", "texlang_stdlib.lib") and "serde" not in fn.name and "::_::" not in fn.name and "::_#" not in fn.name, 10, aud)
 
 
+def r9_8(F, R):
+    from ..cfg import Defs
+    from .common import producers
+    R.rule("R9.8", "recovery never replaces the error: every error a recoverable_error_hook implementation returns is the one it was given (or what a "
+                   "hook it delegates to returned). An error created inside the hook is raised outside every primitive and without a token: it has no "
+                   "source location, and the renderer of the location-less kinds (`stack.last().unwrap()` in error/display.rs, argued for errors raised "
+                   "while a primitive runs) panics on it")
+    n = 0
+    for fn in sorted(F.fns.values(), key=lambda f: f.name):
+        nm = strip_generics(fn.name)
+        if fn.crate not in ("texlang.lib", "texlang_stdlib.lib", "texcraft.bin", "texlang_testing.lib") or "::tests::" in nm:
+            continue
+        if nm.split("::")[-1] != "recoverable_error_hook":
+            continue
+        D = Defs(fn)
+        err_params = [i for i in range(1, fn.argc + 1) if "TracedTexError" in fn.local_ty(i) or "TexError" in fn.local_ty(i)]
+        if not err_params:
+            continue
+        n += 1
+        bad = []
+        for bi, b in enumerate(fn.blocks):
+            for st in b["s"]:
+                if st["k"] == "=" and not st["lhs"]["p"] and st["lhs"]["l"] == 0 and st["rv"]["k"] == "agg" and str(st["rv"].get("variant")) == "Err":
+                    pr = set()
+                    for o in st["rv"]["ops"]:
+                        pr |= producers(fn, D, o)
+                    from_arg = any(tag == "arg" for tag, name, ty in pr)
+                    fresh = [name for tag, name, ty in pr if tag == "call" and not name.split("::")[-1] == "recoverable_error_hook"]
+                    if fresh or not from_arg:
+                        bad.append((fn.loc(st), sorted(set(fresh))[:3]))
+        loc = "%s:%d" % (fn.file, fn.line)
+        if bad:
+            for l, fresh in bad:
+                R.violation("R9.8", nm + "/fresh-error", "%s returns an error it built itself (%s) instead of the recoverable error it was given: that error "
+                            "has no token and is raised outside every primitive, so it carries no source location and cannot be rendered" % (fn.name, ", ".join(x.split("::")[-1] for x in fresh) or "no part of its argument"), l)
+        else:
+            R.ok("R9.8", nm, "every returned error derives from the hook's argument", loc, how="provenance")
+    R.floor("R9.8", "recoverable_error_hook implementations", n, 2)
+
+
 def run(F, R, tier):
+    r9_8(F, R)
     r9_1(F, R)
     r9_2(F, R)
     r9_3(F, R)
